@@ -3,7 +3,7 @@ from analysis.facts import norm
 from analysis.cfg import Cfg
 from analysis.flow import (DefUse, backward, find_calls, callee_is, callee_ends, op_local, op_const, switch_info,
                            bool_branch, variant_arms, static_of, field_chain)
-from analysis.table import describe_val, PathWalker
+from analysis.table import switch_test, describe_val, PathWalker
 from rules.common import need, inl, unit, family
 
 CO = "coroutine::korosensei::Coroutine"
@@ -424,57 +424,49 @@ def grow_rule(run, f, rid_pair, rid_check, rid_value):
     outer = need(run, rid_pair, f, CO + "::maybe_grow_with")
     if outer is None:
         return
-    closures = [c for c in f.bodies if c.kind == "Closure" and c.npath.startswith(CO + "::maybe_grow_with::{closure#")]
-    grow = [c for c in closures if any(norm(t.get("callee") or "") == "corosensei::on_stack" for (_x, t) in c.calls())]
-    if len(grow) != 2:
-        run.fail(rid_pair, "maybe_grow_with/on_stack-sites", outer.loc(), "expected two growth paths (coroutine, thread) calling corosensei::on_stack, found %d" % len(grow))
-    for cb in grow:
-        cfgu = Cfg(cb, unwind=True)
-        cfg = Cfg(cb)
-        du = DefUse(cb)
-        os_ = find_calls(cb, callee_is("corosensei::on_stack"))[0]
-        path = "thread-path" if any(norm(t.get("callee") or "") == "std::thread::LocalKey::with" for (_x, t) in cb.calls()) else "coroutine-path"
-        # push before
+    # one unit: the `DefaultStack::new(..).map(|stack| ..)` closures and the thread-local closures are spliced in, so a growth
+    # path is an on_stack call SITE of the unit whether the author wrote it in a closure or straight-line after a `?`.
+    # Drop impls stay drop terminators (drops=False): the RAII guard is recognised by its type.
+    cb = inl(f, outer, drops=False)
+    cfgu = Cfg(cb, unwind=True)
+    cfg = Cfg(cb)
+    du = DefUse(cb)
+    sites = find_calls(cb, callee_is("corosensei::on_stack"))
+    if len(sites) != 2:
+        run.fail(rid_pair, "maybe_grow_with/on_stack-sites", outer.loc(), "expected two growth paths (coroutine, thread) calling corosensei::on_stack, found %d" % len(sites))
+    cur = find_calls(cb, callee_is(CO + "::current"))
+    co_arm = None
+    if cur:
+        va = variant_arms(cb, cfg, du, cur[0][1]["dest"]["l"], cfg.after(cur[0][0]))
+        co_arm = va[0].get("Some") if va else None
+
+    def pops_in_drop(ty):
+        adt = f.nadts.get(ty) or f.nadts.get(ty.split("<")[0])
+        if not (adt and adt.get("drop")):
+            return False
+        db = f.body(norm(adt["drop"]))
+        if db is None:
+            return False
+        fam = [db] + f.closures_of(db) + [c3 for c2 in f.closures_of(db) for c3 in f.closures_of(c2)]
+        return any(norm(tt.get("callee") or "") == "std::collections::VecDeque::pop_back" for d in fam for (_y, tt) in d.calls())
+
+    guards = []
+    for blk in cb.blocks:
+        t = blk["term"]
+        if t["k"] == "drop" and pops_in_drop(norm(t["pty"])):
+            guards.append(blk["id"])
+    for (x, t) in cb.calls():
+        if norm(t.get("callee") or "") == "std::mem::drop" and t["args"] and op_local(t["args"][0]) is not None and pops_in_drop(norm(cb.locals[op_local(t["args"][0])])):
+            guards.append(x)
+    from analysis.flow import ReachingDefs
+    rd = ReachingDefs(cb, du)
+    ret_slice = backward(cb, 0, du, through_calls="none")
+    for os_ in sites:
+        path = "coroutine-path" if co_arm is not None and cfg.dominates(co_arm, os_[0]) else "thread-path"
         pushes = [x for (x, t) in cb.calls() if norm(t.get("callee") or "") == "std::collections::VecDeque::push_back"]
-        for c2 in f.closures_of(cb):
-            if any(norm(t.get("callee") or "") == "std::collections::VecDeque::push_back" for (_x, t) in c2.calls()):
-                pushes += [x for (x, t) in cb.calls() if norm(t.get("callee") or "") == "std::thread::LocalKey::with" and c2.npath in repr(describe_val(cb, du, t["args"][1]))]
         pre = [x for x in pushes if cfg.dominates(x, os_[0])]
-        # a drop of a local whose type has a Drop impl that pops, on the unwind edge of on_stack and on the normal path
-        guards = []
-        for blk in cb.blocks:
-            t = blk["term"]
-            if t["k"] == "drop":
-                ty = norm(t["pty"])
-                adt = f.nadts.get(ty) or f.nadts.get(ty.split("<")[0])
-                if adt and adt.get("drop"):
-                    db = f.body(norm(adt["drop"]))
-                    pops = False
-                    if db is not None:
-                        stack = [db] + f.closures_of(db)
-                        for d in stack:
-                            for (_x, tt) in d.calls():
-                                if norm(tt.get("callee") or "") == "std::collections::VecDeque::pop_back":
-                                    pops = True
-                            stack_extra = f.closures_of(d)
-                            for d2 in stack_extra:
-                                for (_x, tt) in d2.calls():
-                                    if norm(tt.get("callee") or "") == "std::collections::VecDeque::pop_back":
-                                        pops = True
-                    if pops:
-                        guards.append(blk["id"])
-        for (x, t) in cb.calls():
-            if norm(t.get("callee") or "") == "std::mem::drop" and t["args"] and op_local(t["args"][0]) is not None:
-                ty = norm(cb.locals[op_local(t["args"][0])])
-                adt = f.nadts.get(ty)
-                if adt and adt.get("drop"):
-                    db = f.body(norm(adt["drop"]))
-                    if db is not None and any(norm(tt.get("callee") or "") == "std::collections::VecDeque::pop_back" for d in [db] + f.closures_of(db) + [c3 for c2 in f.closures_of(db) for c3 in f.closures_of(c2)] for (_y, tt) in d.calls()):
-                        guards.append(x)
         unwind_bb = os_[1].get("unwind")
         # drop flags: value of each boolean flag local at the on_stack call (reaching constant definitions)
-        from analysis.flow import ReachingDefs
-        rd = ReachingDefs(cb, du)
         known = {}
         for l in range(len(cb.locals)):
             if cb.locals[l] == "bool" and l in du.defs:
@@ -502,55 +494,59 @@ def grow_rule(run, f, rid_pair, rid_check, rid_value):
                 else:
                     work.extend(cfgu.succ[x])
             return seen
-        ok_unwind = isinstance(unwind_bb, int) and bool(guards) and not (set(cfgu.resumes) & unwind_reach(unwind_bb))
-        ok_normal = bool(guards) and cfg.must_pass(cfg.after(os_[0]), guards)[0]
-        # alternative without guard type: explicit pop_back on both edges
+        # the guard that protects THIS site: reachable from it (the other path's guard does not count)
+        mine = [g for g in guards if g in cfg.reachable(set(cfg.after(os_[0]))) or (isinstance(unwind_bb, int) and g in cfgu.reachable({unwind_bb}))]
+        ok_unwind = isinstance(unwind_bb, int) and bool(mine) and not (set(cfgu.resumes) & unwind_reach(unwind_bb))
+        ok_normal = bool(mine) and cfg.must_pass(cfg.after(os_[0]), mine)[0]
         key = "%s::maybe_grow_with/%s" % (CO, path)
         if pre and ok_unwind and ok_normal:
             run.ok(rid_pair, key, "push_back -> guard -> on_stack -> guard dropped on return and on unwind")
         else:
             run.fail(rid_pair, key, cb.loc(os_[1]["line"]), "the %s pushes a StackInfo before on_stack but does not pop it on %s: after a caught panic later growth decisions are taken against a freed segment" % (path.replace("-", " "), "unwind" if ok_normal else "every exit"))
-        # value: result of the closure is the on_stack result
-        r = backward(cb, 0, du, through_calls="none")
-        if any(x == os_[0] for (x, _t) in r.calls) and not r.ops:
+        # value: the function's result derives from this on_stack result, with no operation on it
+        if any(x == os_[0] for (x, _t) in ret_slice.calls) and not ret_slice.binops():
             run.ok(rid_value, key + "/value", "returns on_stack(stack, callback)")
         else:
             run.fail(rid_value, key + "/value", cb.loc(), "the grown path does not return the callback's value unchanged")
-        # recorded segment is the freshly allocated stack
-        okrec = any("StackInfo" in norm(t.get("callee") or "") and "From" in norm(t.get("callee") or "") for (_x, t) in cb.calls()) or any("StackInfo" in norm(t.get("callee") or "") for c2 in f.closures_of(cb) for (_x, t) in c2.calls())
+        # recorded segment is the freshly allocated stack: what is pushed before this site is StackInfo::from(&<the stack run on>)
+        okrec = False
+        for x in pre:
+            psl = backward(cb, cb.blocks[x]["term"]["args"][1], du, at=(x, "term"), through_calls="all")
+            if any("StackInfo" in norm(tt.get("callee") or "") for (_y, tt) in psl.calls):
+                ssl = backward(cb, os_[1]["args"][0], du, at=(os_[0], "term"), through_calls="all")
+                alloc = {y for (y, tt) in ssl.calls if norm(tt.get("callee") or "").endswith("DefaultStack::new")}
+                if alloc & {y for (y, tt) in psl.calls}:
+                    okrec = True
         if okrec:
             run.ok(rid_check, key + "/record-new-segment", "StackInfo::from(&stack) of the new segment")
         else:
             run.fail(rid_check, key + "/record-new-segment", cb.loc(), "the segment recorded is not derived from the freshly allocated stack")
-    # in-place decision in the outer function
-    cfg = Cfg(outer)
-    du = DefUse(outer)
+    # in-place decisions: a canonical comparison between the measured remaining stack and the red_zone parameter (parameter 1),
+    # however it is spelled (`rem >= red`, `!(rem < red)`, a named `need_grow` bool with swapped arms)
     n = 0
-    for blk in outer.blocks:
-        t = blk["term"]
-        if t["k"] != "switch":
+    inplace = [x for (x, tt) in cb.calls() if norm(tt.get("orig") or "").endswith("FnOnce::call_once") and not tt.get("exp") and x not in {s_[0] for s_ in sites}]
+    for blk in cb.blocks:
+        st = switch_test(cb, du, blk["id"])
+        if not st or not isinstance(st[0], tuple) or st[0][0] != "cmp" or st[0][1] not in ("Lt", "Le"):
             continue
-        dl = op_local(t["discr"])
-        ds = du.defs.get(dl, []) if dl is not None else []
-        if len(ds) == 1 and ds[0][2] == "assign" and ds[0][3]["rhs"]["k"] == "binop" and ds[0][3]["rhs"]["op"] in ("Ge", "Le", "Gt", "Lt"):
-            rv = ds[0][3]["rhs"]
-            a, c = describe_val(outer, du, rv["a"]), describe_val(outer, du, rv["b"])
-            ra, rc = repr(a), repr(c)
-            rem_a = "remaining_stack" in ra or "stack_bottom" in ra
-            rem_c = "remaining_stack" in rc or "stack_bottom" in rc
-            red_a, red_c = "red_zone" in ra, "red_zone" in rc
-            if (rem_a and red_c) or (rem_c and red_a):
-                n += 1
-                enough_true = (rv["op"] == "Ge" and rem_a) or (rv["op"] == "Le" and rem_c)
-                br = bool_branch(outer, cfg, du, dl, [blk["id"]])
-                inplace = [x for (x, tt) in outer.calls() if norm(tt.get("orig") or "").endswith("FnOnce::call_once") and not tt.get("exp")]
-                ok = br is not None and enough_true and any(cfg.dominates(br[0], x) for x in inplace)
-                key = "%s::maybe_grow_with/in-place-test#%d" % (CO, n)
-                if ok:
-                    run.ok(rid_check, key, "callback() in place only under remaining >= red_zone")
-                else:
-                    run.fail(rid_check, key, outer.loc(t["line"]), "the in-place fast path is not guarded by remaining >= red_zone")
-                # value of in-place path
+        (_c, op, a, c), holds, fails = st
+        is_red = lambda v: isinstance(v, tuple) and len(v) >= 2 and v[0] == "param" and v[1] == 1
+        is_rem = lambda v: ("remaining_stack" in repr(v) or "stack_bottom" in repr(v)) and not is_red(v)
+        enough = None
+        if is_red(a) and is_rem(c):          # red_zone < / <= remaining: enough on the edge where it holds
+            enough = holds
+        elif is_rem(a) and is_red(c):        # remaining < / <= red_zone: enough (or strictly more) on the edge where it fails
+            enough = fails if op == "Lt" else None
+            if op == "Le":
+                enough = fails               # remaining > red_zone: stricter than required, still only-with-room
+        if enough is None or holds == fails:
+            continue
+        n += 1
+        key = "%s::maybe_grow_with/in-place-test#%d" % (CO, n)
+        if any(cfg.dominates(enough, x) for x in inplace) and not any(cfg.dominates(holds if enough == fails else fails, x) for x in inplace):
+            run.ok(rid_check, key, "callback() in place only under remaining >= red_zone")
+        else:
+            run.fail(rid_check, key, outer.loc(blk["term"]["line"]), "the in-place fast path is not guarded by remaining >= red_zone")
     if n < 2:
         run.fail(rid_check, "%s::maybe_grow_with/in-place-tests" % CO, outer.loc(), "expected two remaining>=red_zone tests (coroutine path, thread path), found %d" % n, counts_as_instance=False)
     b = need(run, rid_check, f, CO + "::remaining_stack")
